@@ -20,6 +20,7 @@ import re
 
 from .model import Program, walk_own, is_self_attr, dotted
 from .report import AnalysisError
+from .model import key_in
 
 ALL = frozenset(("centre", "xlow", "ylow", "corners"))
 LOCS = ("centre", "xlow", "ylow", "corners")
@@ -289,7 +290,7 @@ class Interp:
     def decide(self, test, st):
         t = self.text(test)
         for key, val in self.seeds.items():
-            if key in t:
+            if key_in(key, t):
                 neg = isinstance(test, ast.UnaryOp) and isinstance(test.op, ast.Not)
                 return (not val) if neg else val
         # `X.loc is not None` / `is None` on a lazily allocating property: never None
